@@ -13,6 +13,38 @@ LISTED = ("BE", "BA", "ES", "FR", "MC", "IT", "SM", "FI", "NO", "PL", "EE", "PT"
 FIELD = ("BE", "BA", "ES", "FR", "MC", "IT", "SM", "FI", "NO", "PL", "EE", "PT", "RS", "ME", "MK", "SI", "TL",
          "MR", "TN")
 
+# Fields the published algorithm of each country reads (independent of what the table currently defines): C17 checks that
+# the bundled table defines every one of them, otherwise the national check silently degenerates (reads '').
+NEEDS = {
+    "BE": ("bank_code", "account_code", "national_checksum_digits"),
+    "BA": ("bank_code", "branch_code", "account_code", "national_checksum_digits"),
+    "PT": ("bank_code", "branch_code", "account_code", "national_checksum_digits"),
+    "RS": ("bank_code", "account_code", "national_checksum_digits"),
+    "ME": ("bank_code", "account_code", "national_checksum_digits"),
+    "MK": ("bank_code", "account_code", "national_checksum_digits"),
+    "SI": ("bank_code", "branch_code", "account_code", "national_checksum_digits"),
+    "TL": ("bank_code", "account_code", "national_checksum_digits"),
+    "MR": ("bank_code", "branch_code", "account_code", "national_checksum_digits"),
+    "TN": ("bank_code", "branch_code", "account_code", "national_checksum_digits"),
+    "FR": ("bank_code", "branch_code", "account_code", "national_checksum_digits"),
+    "MC": ("bank_code", "branch_code", "account_code", "national_checksum_digits"),
+    "ES": ("bank_code", "branch_code", "account_code", "national_checksum_digits"),
+    "IT": ("bank_code", "branch_code", "account_code", "national_checksum_digits"),
+    "SM": ("bank_code", "branch_code", "account_code", "national_checksum_digits"),
+    "FI": ("bank_code", "account_code", "national_checksum_digits"),
+    "NO": ("bank_code", "account_code", "national_checksum_digits"),
+    "PL": ("bank_code", "branch_code", "national_checksum_digits"),
+    "EE": ("branch_code", "account_code", "national_checksum_digits"),
+    "CZ": ("branch_code", "account_code"),
+    "SK": ("branch_code", "account_code"),
+    "IS": ("account_holder_id",),
+}
+
+
+def missing_fields(cc, pos):
+    """Fields the published algorithm needs but the table does not define (non-empty range)."""
+    return [f for f in NEEDS.get(cc, ()) if not pos.get(f) or pos[f][1] <= pos[f][0]]
+
 FR = dict(zip("ABCDEFGHIJKLMNOPQRSTUVWXYZ", "12345678912345678923456789"))
 FR.update({c: c for c in "0123456789"})
 IT_ODD = dict(zip("0123456789", (1, 0, 5, 7, 9, 13, 15, 17, 19, 21)))
